@@ -164,6 +164,8 @@ def concat_interleavings(opss):
                 out.append(("switch", op[1] + e0))
             elif op[0] == "use":
                 out.append(("use", op[1] + l0))
+            elif op[0] == "rewidth":
+                out.append(("rewidth", op[1] + l0, op[2]))
             else:
                 out.append(op)
     return out
@@ -202,13 +204,14 @@ def gen_interleaving(rng, tier):
         return o
     ops.append(("new", some_opts())); neng = 1
     ops.append(("nodes", batches[0][0])); nlists = 1
+    made = [batches[0][0]]                     # the labels each list object was created from
     for _ in range(rng.randint(4, 12)):
         c = rng.random()
         if c < 0.15 and neng < 3:
             ops.append(("new", some_opts())); neng += 1
             ops.append(("use", rng.randrange(nlists)) if rng.random() < 0.6 else ("nodes", batches[min(nlists, len(batches) - 1)][0]))
             if ops[-1][0] == "nodes":
-                nlists += 1
+                nlists += 1; made.append(ops[-1][1])
         elif c < 0.35 and neng > 1:
             ops.append(("switch", rng.randrange(neng)))
         elif c < 0.5:
@@ -217,9 +220,25 @@ def gen_interleaving(rng, tier):
         elif c < 0.6:
             ops.append(("use", rng.randrange(nlists)))
         elif c < 0.65 and nlists < 4:
-            ops.append(("nodes", rng.choice(batches)[0])); nlists += 1
+            ops.append(("nodes", rng.choice(batches)[0])); nlists += 1; made.append(ops[-1][1])
+        elif c < 0.72:
+            # the caller assigns new widths to some of the Node objects of a list (`node.width = w`: a label collapsed to a marker, or given
+            # its measured width later) — every engine that holds these objects lays out what they are NOW, whatever it computed for them before
+            b = rng.randrange(nlists)
+            ws = [w for _p, w in made[b]]
+            new = [(rng.choice([0, 0, w / 2, w * 2, 1, rng.choice(ws)]) if rng.random() < 0.4 else w) for w in ws]
+            made[b] = [(p, nw) for (p, _w), nw in zip(made[b], new)]
+            ops.append(("rewidth", b, new))
         else:
             ops.append(("compute",))
+    if rng.random() < 0.3:
+        # lay a list out, collapse some of its labels to markers of width 0 (or give markers a width) on the SAME objects, lay it out again
+        b = rng.randrange(nlists)
+        ws = [w for _p, w in made[b]]
+        new = list(ws)
+        for i in rng.sample(range(len(ws)), min(len(ws), rng.randint(1, 3))):
+            new[i] = 0 if ws[i] != 0 else rng.choice([1, 8, 40])
+        ops += [("use", b), ("compute",), ("rewidth", b, new)]
     ops.append(("compute",))
     return ops
 
